@@ -205,6 +205,9 @@ Definition sample_history : list call := [
 Example sample_history_ok : hist_ok sample_history.
 Proof. reflexivity. Qed.
 
+Example sample_history_long : (8 <= length sample_history)%nat.
+Proof. cbn. lia. Qed.
+
 Definition sample_state : gstate :=
   with_useGoXmlEmptyElemSyntax true (with_JsonUseNumber true (with_xmlEscapeChars true
   (with_defaultArraySize 100 (with_fieldSep (s"|") (with_xmlCheckIsValid true (with_castToFloat false
